@@ -17,6 +17,8 @@ func main() {
 	// have an empty deviation dimension, so {p,1} there is {p,0}.
 	epSmallQ := []B{{0, 0}, {1, 1}, {2, 1}}
 	epSmallT := []B{{0, 0}, {1, 1}, {2, 1}, {3, 1}}
+	epKdelQ := []B{{0, 0}, {0, 1}, {1, 1}, {2, 1}}
+	epKdelT := []B{{0, 0}, {0, 2}, {1, 2}, {2, 2}, {3, 1}}
 	// The quick tier runs harness 2 as 5 scenarios (3 alone + 2 groups whose first free decision picks the member):
 	// one set of workers and one time share per group instead of per member. The thorough tier, a worker, a replay
 	// and an explicit -scenario see every scenario under its own name.
@@ -75,9 +77,15 @@ func main() {
 			"ep-adopt-distinct-tracker":  {"quick": epSmallQ, "thorough": epSmallT},                                                 // 11k
 			"ep-closed-gen-shared-tuple": {"quick": epSmallQ, "thorough": epSmallT},                                                 // 30k
 			"ep-closed-gen-late-track":   {"quick": epSmallQ, "thorough": epSmallT},
+			// kernel-delete fault leg: one deviation = one failing (or evicted) release; thorough adds two in a row
+			"ep-kdel-remove-vs-track": {"quick": epKdelQ, "thorough": epKdelT},
+			"ep-kdel-readerr-reset":  {"quick": {{0, 0}, {0, 1}, {1, 1}}, "thorough": {{0, 0}, {0, 2}, {1, 2}, {2, 1}}},
+			"ep-kdel-janitor":        {"quick": {{0, 0}, {0, 1}, {1, 0}}, "thorough": {{0, 0}, {0, 2}, {1, 1}}},
+			"ep-kdel-adopt":          {"quick": epKdelQ, "thorough": epKdelT},
 			// quick-tier groups (sum of the members' sizes)
 			"epq-depth2": {"quick": epSmallQ, "thorough": epSmallT},                         // 170k
-			"epq-depth1": {"quick": {{0, 0}, {1, 1}}, "thorough": {{0, 0}, {1, 1}, {2, 1}}}, // 75k                                                 // 34k
+			"epq-depth1": {"quick": {{0, 0}, {1, 1}}, "thorough": {{0, 0}, {1, 1}, {2, 1}}}, // 75k
+			"epq-kdel":   {"quick": epKdelQ, "thorough": epKdelT},
 		},
 		BudgetQuick:    170 * time.Second,
 		BudgetThorough: 20 * time.Minute,
